@@ -1578,6 +1578,13 @@ class Signature:
                         " argument"
                     )
                 elif args_annotation is not None and kwargs_annotation is not None:
+                    if my_param.name in consumed_positional:
+                        # Passed by keyword, it would reach a parameter of theirs
+                        # that an earlier positional argument already fills.
+                        return CanAssignError(
+                            f"parameter {my_param.name!r} is also filled by a"
+                            " positional argument"
+                        )
                     new_tv_maps = can_assign_var_positional(
                         my_param, args_annotation, i - their_args_index, ctx
                     )
